@@ -14,10 +14,14 @@ def decodeAscii (bs : List Nat) : Except PyExc (List Nat) :=
 /-- `bytes.isascii()` -/
 def isAscii (bs : List Nat) : Bool := bs.all (· < 128)
 
-/-- whitespace for `bytes.lstrip()` / `bytes.strip()` : b' \t\n\r\x0b\x0c' -/
+/-- C white space (`Py_ISSPACE`): whitespace for `bytes.lstrip()` / `bytes.strip()` (b' \t\n\r\x0b\x0c'),
+    and the only characters that `float()` / `int()` skip around the number in an all-ASCII `str`
+    (for ASCII text `_PyUnicode_TransformDecimalAndSpaceToASCII` returns the text unchanged, so the
+    Unicode white-space table is never consulted) -/
 def isBytesSpace (c : Nat) : Bool := c == 32 || (9 ≤ c && c ≤ 13)
 
-/-- whitespace for `str.strip()` and `int()` on ASCII text: also the separators 0x1C..0x1F -/
+/-- whitespace for `str.strip()` / `str.isspace()` on ASCII text: also the separators 0x1C..0x1F
+    (NOT skipped by `float()` / `int()`: those use `isBytesSpace`, see `stripC`) -/
 def isStrSpace (c : Nat) : Bool := c == 32 || (9 ≤ c && c ≤ 13) || (28 ≤ c && c ≤ 31)
 
 def lstripBytes (bs : List Nat) : List Nat := bs.dropWhile isBytesSpace
@@ -26,6 +30,11 @@ def rstripWith (p : Nat → Bool) (s : List Nat) : List Nat := (s.reverse.dropWh
 
 /-- `str.strip()` -/
 def strip (s : List Nat) : List Nat := rstripWith isStrSpace (s.dropWhile isStrSpace)
+
+/-- the white space that `float(text)` / `int(text)` / `int(text, base)` skip before and after the
+    number when `text` is an all-ASCII `str`: only the C set {32, 9..13}. 0x1C..0x1F are left in
+    place (and then make the conversion fail with ValueError). -/
+def stripC (s : List Nat) : List Nat := rstripWith isBytesSpace (s.dropWhile isBytesSpace)
 
 /-- `bytes.find(byte)` / `str.find(ch)` from the start: index of the first occurrence -/
 def find (xs : List Nat) (c : Nat) : Option Nat :=
@@ -59,11 +68,11 @@ def hexDigitsLoop : List Nat → Nat → Bool → Bool → Option Nat
       | some v => hexDigitsLoop cs (acc * 16 + v) false true
       | none => none
 
-/-- `int(s, 16)` for ASCII text `s` (CPython grammar: surrounding whitespace, optional sign,
+/-- `int(s, 16)` for ASCII text `s` (CPython grammar: surrounding C whitespace {32, 9..13}, optional sign,
     optional `0x`/`0X` prefix which may be followed by one underscore, digits with single underscores
     between them). ValueError otherwise. -/
 def intBase16 (s : List Nat) : Except PyExc Int :=
-  let s := strip s
+  let s := stripC s
   let (neg, s) := match s with
     | 43 :: r => (false, r)
     | 45 :: r => (true, r)
@@ -87,7 +96,7 @@ def decDigitsLoop : List Nat → Nat → Bool → Bool → Option Nat
 
 /-- `int(s)` (base 10) for ASCII text -/
 def intBase10 (s : List Nat) : Except PyExc Int :=
-  let s := strip s
+  let s := stripC s
   let (neg, s) := match s with
     | 43 :: r => (false, r)
     | 45 :: r => (true, r)
